@@ -9,6 +9,48 @@ open Glue
 
 let infp_of s = if s = "lit" then inf_none else inf_sentinel !sentinel
 
+(* ---- replay of a recorded decision trace of QSexact_solver through the extracted driver model ----
+   Q <id> trace <algo P|D> <ebasis 0|1> <n> (<event> <level> <value>)*n
+   answer: A <id> <rval 0|1> <status code> <exit label> *)
+let lpstat_of_int i = match i with
+  | 1 -> StOptimal | 2 -> StInfeasible | 3 -> StUnbounded | 9 -> StObjLimit | 6 -> StUnsolved | 0 -> StZero
+  | k -> StOther (coqz_of_z (BZ.of_int k))
+let int_of_lpstat s = match s with
+  | StOptimal -> 1 | StInfeasible -> 2 | StUnbounded -> 3 | StObjLimit -> 9 | StUnsolved -> 6 | StZero -> 0
+  | StOther k -> BZ.to_int (z_of_coqz k)
+let string_of_exit e = match e with
+  | ExitTest l -> Printf.sprintf "test%d" (int_of_nat l)
+  | ExitRetest l -> Printf.sprintf "retest%d" (int_of_nat l)
+  | ExitObjLimit l -> Printf.sprintf "objlimit%d" (int_of_nat l)
+  | ExitError l -> Printf.sprintf "error%d" (int_of_nat l)
+  | ExitLadderExhausted -> "exhausted"
+
+let replay_trace (algo : string) (eb : bool) (ev : (int * int * int) list) =
+  let find e l = List.find_opt (fun (e', l', _) -> e' = e && l' = l) ev in
+  let value e l d = match find e l with Some (_, _, v) -> v | None -> d in
+  let qi i = { qnum = coqz_of_z (BZ.of_int i); qden = XH } in
+  let lvl_basis l = { cstat = List.init l (fun _ -> BLower); rstat = [] } in
+  let dummy = { sx = []; spi = []; src = []; sslack = []; sval = qi 0 } in
+  let float_solve lvl _ _ =
+    let l = int_of_nat lvl in
+    { f_fail = (find 1 l <> None); f_status = lpstat_of_int (value 2 l 0); f_iter = nat_of_int (min 2 (value 3 l 0)); (* only zero / non-zero matters *)
+      f_x = [ qi 0 ]; f_y = []; f_basis = lvl_basis l;
+      f_infeas = (if find 7 l <> None || (find 8 l = None && value 2 l 0 = 2) then None else Some [ qi l; qi 0 ]) } in
+  let basis_status b =
+    let l = List.length b.cstat in
+    { e_fail = (find 5 l = None); e_status = lpstat_of_int (value 5 l 0); e_x = [ qi 1 ]; e_y = [];
+      e_infeas = (if find 9 l = None && value 5 l 0 = 2 then None else Some [ qi l; qi 1 ]) } in
+  let otest b x _ =
+    let l = List.length b.cstat in
+    let first = (match x with [ v ] -> qeq_bool v (qi 0) | _ -> true) in
+    if value (if first then 4 else 6) l 0 = 1 then Some dummy else None in
+  let itest y = match y with
+    | [ l; k ] -> let l = BZ.to_int (z_of_coqz l.qnum) in
+      value (if qeq_bool k (qi 0) then 8 else 9) l 0 = 1
+    | _ -> false in
+  let ebasis = if eb then Some (lvl_basis 0) else None in
+  exact_solver_gen otest itest float_solve basis_status ebasis (nat_of_int 12) (if algo = "D" then DualS else PrimalS)
+
 let expect ic tag = match next_tokens ic with
   | Some (t :: r) when t = tag -> r
   | _ -> failwith ("expected " ^ tag)
@@ -22,6 +64,12 @@ let () =
     | Some ("Q" :: id :: kind :: args) ->
       (try
         (match kind, args with
+         | "trace", (algo :: eb :: _n :: rest) ->
+           let rec trip = function
+             | e :: l :: v :: r -> (int_of_string e, int_of_string l, int_of_string v) :: trip r
+             | [] -> [] | _ -> failwith "trace arity" in
+           let r = replay_trace algo (eb = "1") (trip rest) in
+           Printf.printf "A %s %d %d %s\n" id (if r.r_rval then 1 else 0) (int_of_lpstat r.r_status) (string_of_exit r.r_exit)
          | "kkt", [ sem ] ->
            let hdr = (match next_tokens ic with Some h -> h | None -> failwith "eof") in
            let (p, _) = read_ilp ic hdr in
